@@ -148,7 +148,11 @@ class NodalAnalysis(object):
                 lhs, rhs = self._unknowns[n1], self._unknowns[n2] + V
 
             else:
-                result = Itype(self.kind)(0)
+                if not isinstance(self.kind, str):
+                    # A phasor needs to know the angular frequency.
+                    result = Itype(self.kind)(0, omega=self.kind)
+                else:
+                    result = Itype(self.kind)(0)
                 for elt in self.cg.connected_cpts(node):
                     if len(elt.node_names) < 2:
                         raise ValueError('Elt %s has too few nodes' % elt)
